@@ -12,7 +12,8 @@
 (* its internal step order; one that does not is rejected at the first     *)
 (* offending command.                                                      *)
 (* Rows: {"e":"reset", sys, bak, bdir, pkg, rest, svc}                     *)
-(*       {"e":"cmd", c, res, sys, bak, bdir, pkg, rest, svc, calls}        *)
+(*       {"e":"cmd", c, res, sys, bak, bdir, pkg, rest, svc, wrote,        *)
+(*        calls: [{v, s, w}]}                                              *)
 (***************************************************************************)
 EXTENDS Setup, Json, IOUtils
 
@@ -26,14 +27,14 @@ Load(r) ==
 TInit ==
   /\ l = 1
   /\ sys = All(A) /\ bak = All(A) /\ bdir = FALSE /\ pkg = All(A) /\ rest = "r0" /\ svc = "stopped"
-  /\ calls = << >> /\ cmd = "none" /\ pc = 0 /\ res = "none"
+  /\ calls = << >> /\ wrote = FALSE /\ cmd = "none" /\ pc = 0 /\ res = "none"
   /\ pre = [sys |-> All(A), bak |-> All(A), bdir |-> FALSE, svc |-> "stopped", pkg |-> All(A), rest |-> "r0"]
   /\ s0 = All(A) /\ rt = 0 /\ chk = FALSE
 
 Reset ==
   /\ l <= Len(Rec) /\ Rec[l].e = "reset"
   /\ Load(Rec[l])
-  /\ calls' = << >> /\ cmd' = "none" /\ pc' = 0 /\ res' = "none"
+  /\ calls' = << >> /\ wrote' = FALSE /\ cmd' = "none" /\ pc' = 0 /\ res' = "none"
   /\ pre' = [sys |-> Rec[l].sys, bak |-> Rec[l].bak, bdir |-> Rec[l].bdir, svc |-> Rec[l].svc,
              pkg |-> Rec[l].pkg, rest |-> Rec[l].rest]
   /\ s0' = All(A) /\ rt' = 0 /\ chk' = FALSE
@@ -42,7 +43,7 @@ Reset ==
 Cmd ==
   /\ l <= Len(Rec) /\ Rec[l].e = "cmd"
   /\ Load(Rec[l])
-  /\ calls' = Rec[l].calls /\ cmd' = Rec[l].c /\ pc' = 0 /\ res' = Rec[l].res
+  /\ calls' = Rec[l].calls /\ wrote' = Rec[l].wrote /\ cmd' = Rec[l].c /\ pc' = 0 /\ res' = Rec[l].res
   /\ pre' = Snapshot
   /\ LET g == NextRt(Rec[l].c, sys, rt, IF rt = 0 THEN All(A) ELSE s0)
      IN rt' = g[1] /\ s0' = g[2] /\ chk' = g[3]
